@@ -4,6 +4,13 @@
 //  reversed        X_FM(reversed mobilizer, q) * X_FM(forward mobilizer, q) = identity
 //  H               V_FM = sum_j u_j getH_FMCol(j)
 //  fit             setQToFitTransform(own X) / setUToFitVelocity(own V) reproduce pose / speeds
+//  partial fits    starting from an unrelated second coordinate / speed set (q2,u2):
+//    fitR+T        setQToFitRotation(R of X) then setQToFitTranslation(p of X) reproduces the pose (Ellipsoid: rotation fit only)
+//    fitT+R        the other order, for forward mobilizers whose translation fit does not consult the rotation
+//    fitR-keeps-p / fitT-keeps-R   independent coordinates (Cylinder, Planar, Bushing, Free, FreeLine, forward): a partial fit
+//                  reaches its target and leaves the other part of the pose where it was
+//    fitW+LV / fitLV+W   setUToFitAngularVelocity(w of V) and setUToFitLinearVelocity(v of V), either order, reproduce u
+//                  (reversed mobilizers only when w_FM = 0: the linear wrapper assumes that; Ellipsoid W+LV only for a sphere)
 // usage: C05_search <seed> <ncases>; prints "FAIL <predicate>-<Type> err=... case..." lines and "DONE <evaluations> fails=<n>".
 #include "mb_common.h"
 static long evals = 0; static int fails = 0;
@@ -94,10 +101,34 @@ int main(int argc, char** argv) {
           dR /= h; dp /= h; Mat33 W = dR * ~X.R().asMat33(); Vec3 w(W(2, 1), W(0, 2), W(1, 0));
           chk("speeds-angular", type, (w - V[0]).norm(), 1e-8, info); chk("speeds-linear", type, (dp - V[1]).norm(), 1e-8, info); }
         // fits
-        { State s2 = sys.realizeTopology(); matter.setUseEulerAngles(s2, euler); sys.realizeModel(s2);
-          mb.setQToFitTransform(s2, X); sys.realize(s2, Stage::Position); const Transform X2 = mb.getMobilizerTransform(s2);
+        State s2 = sys.realizeTopology(); matter.setUseEulerAngles(s2, euler); sys.realizeModel(s2);
+        { State f = s2; mb.setQToFitTransform(f, X); sys.realize(f, Stage::Position); const Transform X2 = mb.getMobilizerTransform(f);
           chk("fitQ", type, xdiff(X2.R().asMat33(), X2.p(), X), 1e-9, info);
           State s3 = s; s3.updU() = 0; mb.setUToFitVelocity(s3, V); chk("fitU", type, nu ? (s3.getU() - s.getU()).norm() : 0, 1e-9, info); }
+        // partial fits, starting from a second unrelated coordinate / speed set
+        { Vector q2(nq), u2(nu);
+          for (int i = 0; i < nq; ++i) q2[i] = r.U(0.1, 1.2) * (r.I(0, 1) ? 1 : -1);
+          if (quat) { Vec4 e(r.U(-1, 1), r.U(-1, 1), r.U(-1, 1), r.U(-1, 1)); if (e.norm() < 0.2) e = Vec4(1, 0, 0, 0); e = e / e.norm(); for (int i = 0; i < 4; ++i) q2[i] = e[i]; }
+          for (int i = 0; i < nu; ++i) u2[i] = r.U(-1, 1);
+          auto pose = [&](State& st) { sys.realize(st, Stage::Position); return mb.getMobilizerTransform(st); };
+          State z = s2; z.updQ() = q2; const Transform X0 = pose(z);         // pose of the starting coordinates
+          { State a = s2; a.updQ() = q2; mb.setQToFitRotation(a, X.R()); if (type != 12) mb.setQToFitTranslation(a, X.p());
+            const Transform Xa = pose(a); chk("fitR+T", type, xdiff(Xa.R().asMat33(), Xa.p(), X), 1e-9, info); }
+          const bool indep = !rev && (type == 3 || type == 5 || type == 7 || type == 9 || type == 14);
+          const bool trOK = !rev && (indep || type == 0 || type == 1 || type == 2 || type == 6 || type == 8 || type == 10 || type == 11 || type == 13 || type == 16);
+          if (trOK) { State a = s2; a.updQ() = q2; mb.setQToFitTranslation(a, X.p()); mb.setQToFitRotation(a, X.R());
+            const Transform Xa = pose(a); chk("fitT+R", type, xdiff(Xa.R().asMat33(), Xa.p(), X), 1e-9, info); }
+          if (indep) { State a = s2; a.updQ() = q2; mb.setQToFitRotation(a, X.R()); const Transform Xa = pose(a);
+            chk("fitR-keeps-p", type, (Xa.R().asMat33() - X.R().asMat33()).norm() + (Xa.p() - X0.p()).norm(), 1e-9, info);
+            State b = s2; b.updQ() = q2; mb.setQToFitTranslation(b, X.p()); const Transform Xb = pose(b);
+            chk("fitT-keeps-R", type, (Xb.R().asMat33() - X0.R().asMat33()).norm() + (Xb.p() - X.p()).norm(), 1e-9, info); }
+          const bool velOK = !rev || V[0].norm() == 0;
+          const bool sphere = type != 12 || (par[0] == par[1] && par[1] == par[2]);
+          if (velOK && sphere) { State c = s; c.updU() = u2; mb.setUToFitAngularVelocity(c, V[0]); mb.setUToFitLinearVelocity(c, V[1]);
+            chk("fitW+LV", type, nu ? (c.getU() - s.getU()).norm() : 0, 1e-9, info); }
+          if (velOK) { State c = s; c.updU() = u2; mb.setUToFitLinearVelocity(c, V[1]); mb.setUToFitAngularVelocity(c, V[0]);
+            chk("fitLV+W", type, nu ? (c.getU() - s.getU()).norm() : 0, 1e-9, info); }
+        }
     }
     std::printf("DONE %ld fails=%d\n", evals, fails);
     return 0;
